@@ -217,6 +217,15 @@ impl SubCheck for RoundTrip {
 				match serde_json::from_str::<Id>(&text) {
 					Ok(back) => {
 						obs.check(back == id, "id/roundtrip", || format!("{id:?} -> {text} -> {back:?}"));
+						// detached from the text it is the same id, and the accessors describe it
+						let owned = back.clone().into_owned();
+						obs.check(owned == id && serde_json::to_string(&owned).unwrap() == text, "id/into-owned-changes-value", || format!("{id:?} -> {owned:?}"));
+						let acc_ok = match g {
+							GId::Num(n) => owned.as_number() == Some(n) && owned.as_str().is_none() && owned.as_null().is_none(),
+							GId::Str(s) => owned.as_str() == Some(s.as_str()) && owned.as_number().is_none() && owned.as_null().is_none(),
+							GId::Null => owned.as_null() == Some(()) && owned.as_number().is_none() && owned.as_str().is_none(),
+						};
+						obs.check(acc_ok, "id/accessors", || format!("{g:?}: as_number={:?} as_str={:?} as_null={:?}", owned.as_number(), owned.as_str(), owned.as_null()));
 						let again = serde_json::to_string(&back).unwrap();
 						obs.check(again == text, "id/reserialise", || format!("{text} vs {again}"));
 					}
@@ -237,6 +246,8 @@ impl SubCheck for RoundTrip {
 				match serde_json::from_str::<SubscriptionId>(&text) {
 					Ok(back) => {
 						obs.check(back == sid, "subid/roundtrip", || format!("{sid:?} -> {text} -> {back:?}"));
+						let owned = back.clone().into_owned();
+						obs.check(owned == sid && serde_json::to_string(&owned).unwrap() == text, "subid/into-owned-changes-value", || format!("{sid:?} -> {owned:?}"));
 						obs.check(serde_json::to_string(&back).unwrap() == text, "subid/reserialise", || text.clone());
 					}
 					Err(e) => obs.fail("subid/roundtrip-parse", format!("{text}: {e}")),
@@ -273,6 +284,10 @@ impl SubCheck for RoundTrip {
 					Ok(back) => {
 						obs.check(back == e, "error/roundtrip", || format!("{e:?} -> {text} -> {back:?}"));
 						obs.check(back.code() == *code, "error/roundtrip-code", || format!("{code} -> {}", back.code()));
+						let owned = back.clone().into_owned();
+						obs.check(owned == e && serde_json::to_string(&owned).unwrap() == text, "error/into-owned-changes-value", || format!("{e:?} -> {owned:?}"));
+						let borrowed = owned.borrow();
+						obs.check(borrowed == e && serde_json::to_string(&borrowed).unwrap() == text, "error/borrow-changes-value", || format!("{e:?} -> {borrowed:?}"));
 						obs.check(serde_json::to_string(&back).unwrap() == text, "error/reserialise", || text.clone());
 					}
 					Err(err) => obs.fail("error/roundtrip-parse", format!("{text}: {err}")),
@@ -656,8 +671,23 @@ impl SubCheck for ParserStrictness {
 			obs.check(id_ok && payload_ok, "parser/wrong-content", || format!("{text} => {rp:?}"));
 		}
 		// typed payload must agree on acceptance as well
-		let got_v = serde_json::from_str::<Response<serde_json::Value>>(&text).is_ok();
+		let parsed_v = serde_json::from_str::<Response<serde_json::Value>>(&text);
+		let got_v = parsed_v.is_ok();
 		obs.check(got_v == want, "parser/value-typed-disagrees", || format!("{text} => accepted={got_v}, expected={want}"));
+		// what was parsed is the same value once it has been detached from the text (both clients do that to every
+		// response before anybody looks at it)
+		if let Ok(rp) = parsed_v {
+			let before = (rp.jsonrpc.is_some(), serde_json::to_string(&rp).unwrap());
+			let owned = rp.into_owned();
+			let after = (owned.jsonrpc.is_some(), serde_json::to_string(&owned).unwrap());
+			obs.check(before == after, "response/into-owned-changes-value", || format!("{text}: (has version, serialised) {before:?} before into_owned(), {after:?} after"));
+		}
+		if let Ok(rp) = serde_json::from_str::<Response<Box<RawValue>>>(&text) {
+			let before = (rp.jsonrpc.is_some(), serde_json::to_string(&rp).unwrap());
+			let owned = rp.into_owned();
+			let after = (owned.jsonrpc.is_some(), serde_json::to_string(&owned).unwrap());
+			obs.check(before == after, "response/into-owned-changes-value", || format!("{text}: (has version, serialised) {before:?} before into_owned(), {after:?} after"));
+		}
 	}
 }
 
